@@ -86,7 +86,11 @@ func varyClass(h http.Header, f string) string {
 }
 
 func runC04(x *mc.X) {
-	plan := mc.Pick(x, "plan", []string{"wide", "narrow-deep", "different-meaning-pairs", "vary-forms"})
+	plan := mc.Pick(x, "plan", []string{"wide", "narrow-deep", "different-meaning-pairs", "vary-forms", "value that begins like the rest of another field name"})
+	if plan == "value that begins like the rest of another field name" {
+		runC04Framing(x)
+		return
+	}
 	if plan == "different-meaning-pairs" {
 		runC04Pairs(x)
 		return
@@ -209,6 +213,9 @@ var c04Pairs = [][3]string{
 	{"Accept-Encoding", "br, gzip;q=0.000", "br, gzip;q=0.001"},
 	{"Accept-Encoding", "gzip;q=0", "identity;q=0"},
 	{"Accept-Language", "de;q=0.00", "fr;q=0"},
+	// ... and a partial wildcard is a wildcard for what it covers
+	{"Accept", "text/*", "text/*, text/html;q=0"},
+	{"Accept", "text/*;q=0.5, text/html;q=0", "text/*;q=0.5"},
 	{"X-Api-Key", "alice", "bob"},
 	{"Dnt", "1", "0"},
 	{"Sec-Ch-Ua-Mobile", "?0", "?1"},
@@ -265,5 +272,60 @@ func runC04Pairs(x *mc.X) {
 	x.Sample(map[string]any{"field": p[0], "stored_for": a, "requested_with": b, "vary": v, "observed": o2.String()})
 	if o2.Panic == nil && o2.Err == nil && o1.Tok != "" && o2.Tok == o1.Tok {
 		x.Failf("wrong variant served: "+p[0]+" values with different meaning share a response", "stored for %s=%q (Vary: %s), returned for %s=%q: %s", p[0], a, v, p[0], b, o2)
+	}
+}
+
+// c04Framings: a nominated field F2, a longer field name F1 = F2 + rest, and a value v. Wherever the cache combines a
+// field name and a value into one string (a hash input, a memo key, an index key), ("F1", v) and ("F2", rest+v) must
+// stay apart — the same demand as for the variant hash, for state that outlives one resource.
+var c04Framings = [][3]string{
+	{"Accept", "Accept-Language", "en"},
+	{"Accept", "Accept-Encoding", "gzip"},
+	{"Accept", "Accept-Charset", "utf-8"},
+	{"X-A", "X-Ab", "1"},
+	{"Origin", "Origin-Trial", "https://a.test"},
+}
+
+func runC04Framing(x *mc.X) {
+	f := c04Framings[x.Choose("fields", len(c04Framings))]
+	f2, f1, v := f[0], f[1], f[2]
+	rest := f1[len(f2):]
+	x.Trace[len(x.Trace)-1].Desc = fmt.Sprintf("%s / %s with value %q", f2, f1, v)
+	first := mc.Pick(x, "seen first", []string{"the longer field", "the shorter field with the longer value", "neither"})
+	dir := x.Choose("direction", 2)
+	w := world.New(world.Opt{})
+	defer w.Close()
+	other := "http://example.test/other"
+	switch first {
+	case "the longer field":
+		answer(w, RS{Status: 200, H: H("Cache-Control", "max-age=100000", "Vary", f1)})
+		logObs(x, fmt.Sprintf("GET %s with %s=%q (origin Vary: %s)", other, f1, v, f1), get(w, other, f1, v))
+	case "the shorter field with the longer value":
+		answer(w, RS{Status: 200, H: H("Cache-Control", "max-age=100000", "Vary", f2)})
+		logObs(x, fmt.Sprintf("GET %s with %s=%q (origin Vary: %s)", other, f2, rest+v, f2), get(w, other, f2, rest+v))
+	}
+	a, b := rest+v, v
+	if dir == 1 {
+		a, b = b, a
+	}
+	answer(w, RS{Status: 200, H: H("Cache-Control", "max-age=100000", "Vary", f2)})
+	o1 := get(w, U, f2, a)
+	logObs(x, fmt.Sprintf("GET %s=%q (origin Vary: %s)", f2, a, f2), o1)
+	world.Advance(secs(1))
+	o2 := get(w, U, f2, b)
+	logObs(x, fmt.Sprintf("GET %s=%q", f2, b), o2)
+	// and the longer field on its own resource: its value v against the value another normalisation would give it
+	answer(w, RS{Status: 200, H: H("Cache-Control", "max-age=100000", "Vary", f1)})
+	o3 := get(w, other+"2", f1, v)
+	logObs(x, fmt.Sprintf("GET %s2 with %s=%q (origin Vary: %s)", other, f1, v, f1), o3)
+	o4 := get(w, other+"2", f1, v+"x")
+	logObs(x, fmt.Sprintf("GET %s2 with %s=%q", other, f1, v+"x"), o4)
+	x.Nontrivial("framing/" + f2 + "/" + first)
+	x.State("framing", f2, f1, first, fmt.Sprint(dir), obsClass(o2), obsClass(o4))
+	if o2.Panic == nil && o2.Err == nil && o1.Tok != "" && o2.Tok == o1.Tok {
+		x.Failf("wrong variant served: a value that begins like the rest of another field name", "stored for %s=%q (Vary: %s), returned for %s=%q: %s", f2, a, f2, f2, b, o2)
+	}
+	if o4.Panic == nil && o4.Err == nil && o3.Tok != "" && o4.Tok == o3.Tok {
+		x.Failf("wrong variant served: a value that begins like the rest of another field name", "stored for %s=%q (Vary: %s), returned for %s=%q: %s", f1, v, f1, f1, v+"x", o4)
 	}
 }
